@@ -46,6 +46,7 @@ def data_text(n_rows, cols):
 CONFIGS = {
     'target': dict(cols=['a', 'b', 'c'], over=dict(target_ranking_only='True', minibatch_size=8, subsampling=1, heuristic='MI-numba-randomized')),
     'pairwise': dict(cols=['a', 'b', 'c'], over=dict(target_ranking_only='False', minibatch_size=8, subsampling=1, heuristic='MI-numba-randomized')),
+    'ratio': dict(cols=['a', 'b', 'c'], over=dict(target_ranking_only='True', minibatch_size=8, subsampling=1, heuristic='MI-numba-randomized', mi_stratified_sampling_ratio=0.5)),
     'noise': dict(cols=['a', 'b'], over=dict(target_ranking_only='True', minibatch_size=8, subsampling=1, heuristic='MI-numba-randomized', include_noise_baseline_features='True')),
 }
 
@@ -144,6 +145,7 @@ CLI_CONFIGS = {
     'focus': ('plain', ['--data_source', 'csv-raw', '--feature_set_focus', 'c,a,b', '--target_ranking_only', 'False', '--heuristic', 'MI-numba-randomized']),
     'multivalue': ('plain', ['--data_source', 'csv-raw', '--feature_set_focus', 'm,a', '--explode_multivalue_features', 'm', '--target_ranking_only', 'False', '--heuristic', 'MI-numba-randomized']),
     'transformers': ('transformers', ['--data_source', 'ob-csv', '--transformers', 'minimal', '--target_ranking_only', 'False', '--heuristic', 'MI-numba-randomized']),
+    'ratio': ('plain', ['--data_source', 'csv-raw', '--target_ranking_only', 'False', '--heuristic', 'MI-numba-randomized', '--mi_stratified_sampling_ratio', '0.6']),
     'capped': ('plain', ['--data_source', 'csv-raw', '--target_ranking_only', 'False', '--heuristic', 'MI-numba-randomized', '--combination_number_upper_bound', '4', '--minibatch_size', '10']),
     'subfeature_noise': ('plain', ['--data_source', 'csv-raw', '--subfeature_mapping', 'a->b', '--include_noise_baseline_features', 'True', '--target_ranking_only', 'True', '--heuristic', 'MI']),
 }
@@ -168,7 +170,7 @@ def run(ctx):
     jobs = []
     plan = []
     limit = 20000 if ctx.thorough else 1500
-    for cfg in ('target', 'noise', 'pairwise'):
+    for cfg in ('target', 'ratio', 'noise', 'pairwise'):
         for W in (1, 2, 3):
             base, k, _ = run_schedule(cfg, W, ())
             n_all = sum(1 for _ in itertools.islice(vpool.schedules(k, W), limit + 1))
@@ -201,7 +203,7 @@ def run(ctx):
     ctx.stats.sample({'kind': 'schedule', 'config': 'target', 'W': 3, 'schedule': [0, 1, 2, 0, 1, 1, 2, 0]})
     ctx.stats.sample({'kind': 'cli', 'config': 'focus', 'seed': 1, 'threads': 2, 'ref_seed': 0, 'ref_threads': 1})
     ctx.extra['virtual_pool_plan'] = [{'config': c, 'W': w, 'chunks': k, 'schedules': n, 'mode': m} for c, w, k, n, m in plan]
-    for cfg in ('target', 'pairwise', 'noise'):
+    for cfg in ('target', 'ratio', 'pairwise', 'noise'):
         if len(ctx.stats.sets['outcomes_' + cfg]) > 1 and not ctx.stats.violations:
             raise HarnessError('outcome count > 1 without violation')
 
